@@ -71,25 +71,28 @@ Definition millisecond : Z := 1000000.   (* ns *)
 Definition wrap64 (z : Z) : Z := (z + 2 ^ 63) mod 2 ^ 64 - 2 ^ 63.
 Definition to_duration (d : Z) : Z := wrap64 (d * millisecond).
 
-(* result of a call: a time.Duration in ns, or the panic of rand.Intn(d), d <= 0 *)
+(* result of a call: a time.Duration in ns, or a panic of the random draw *)
 Inductive outcome := Dur (ns : Z) | Panic.
 
-(* the delay in ms before the int64 conversion; [r] is the oracle standing for the
-   global math/rand source: rand.Intn(d) is some value of [0, d), here r mod d *)
-Definition delay_ms (b : backoff) (n r : Z) : option Z :=
+(* The delay.  Without jitter: d ms converted to a Duration.  With jitter ("full
+   jitter"): some Duration in [0, d ms), chosen by the global math/rand source, which
+   the model takes as an oracle argument [r] ranging over ALL of Z: the result is
+   r mod (d ms in ns).  This deliberately abstracts HOW the draw is made -- the code
+   draws whole milliseconds (rand.Intn(d) * time.Millisecond, the values k * 10^6 with
+   0 <= k < d, reached by r = k * 10^6: Proofs/BackoffP.v ms_draw_admissible); drawing
+   at nanosecond resolution is equally within the property ("between zero and that
+   value").  A draw from an empty range (d <= 0, only possible with a non-positive
+   Cap) panics in the code (rand.Intn: "invalid argument to Intn"). *)
+Definition delay (b : backoff) (n r : Z) : outcome :=
   let d := expo_exec b n in
-  if no_jitter b then Some d
-  else if d <=? 0 then None            (* rand.Intn panics: "invalid argument to Intn" *)
-  else Some (r mod d).
+  if no_jitter b then Dur (to_duration d)
+  else if d <=? 0 then Panic
+  else Dur (r mod to_duration d).
 
 (* durationForAttempt(attempt) -- repaired behaviour: uses its parameter (D5).
    Returns the receiver after setDefault and the outcome. *)
 Definition dur_for_attempt (b : backoff) (n r : Z) : backoff * outcome :=
-  let b' := set_default b in
-  (b', match delay_ms b' n r with
-       | Some d => Dur (to_duration d)
-       | None => Panic
-       end).
+  let b' := set_default b in (b', delay b' n r).
 
 (* duration(): durationForAttempt(b.attempt); attempt++ (not reached on panic) *)
 Definition duration (b : backoff) (r : Z) : backoff * outcome :=
